@@ -167,10 +167,19 @@ def default_of(t):
 
 def encode(t, init):
     """bits of `layout.const(init)`: an all-zero value with every field assigned in the order of `init`.
-    init: int for leaves (taken modulo the width), ("bits", n) = an already built constant, None, dict or list"""
+    init: int for leaves (taken modulo the width), ("bits", n) = an already built constant, ("hc", value, width,
+    signed) = an hdl.Const initialiser of a plain field, None, dict or list"""
     w = width(t)
     if isinstance(init, tuple) and len(init) == 2 and init[0] == "bits":
         return init[1] & mask(w)
+    if isinstance(init, tuple) and len(init) == 4 and init[0] == "hc":
+        # an hdl.Const(value, Shape(cw, csigned)) assigned to the field: the constant's own value (wrapped into its
+        # own shape, sign-extended iff the constant is signed) truncated / extended to the field width
+        _hc, value, cw, csigned = init
+        value &= mask(cw)
+        if csigned:
+            value = to_signed(value, cw)
+        return value & mask(w)
     if is_leaf(t):
         return init & mask(w)
     if init is None:
